@@ -3,7 +3,8 @@
  * vtable and a presettable counter; each names one of three real descriptors (read ends of pipes) = notifier slots.
  *
  *   n begin
- *   n input <count> <slot|none>     harness input (external references = count), reports descriptor of <slot>
+ *   n input <count> <slot|none|file>  harness input (external references = count), reports descriptor of <slot>;
+ *                                   file: a regular file, which epoll refuses (also: n clear file)
  *   n add <i>                       a reference is taken for the notifier and handed to mpt_notify_add(); given back on failure
  *   n config <i>                    mpt_notify_config(no, <config whose connect entry is input i>)
  *   n clear <slot>                  mpt_notify_clear(no, descriptor)
@@ -38,7 +39,7 @@ struct hin {
 };
 static struct hin ins[NIN];
 static int nin;
-static int rfd[NSLOT], wfd[NSLOT];
+static int rfd[NSLOT + 1], wfd[NSLOT];   /* rfd[NSLOT]: a regular file, a descriptor epoll refuses ("file") */
 static MPT_STRUCT(notify) no = MPT_NOTIFY_INIT;
 
 static struct hin *of_in(void *p)
@@ -113,6 +114,7 @@ static int parse_idx(const char *w, int lim)
 static int parse_slot(const char *w)      /* -2 error, -1 none */
 {
 	if (!strcmp(w, "none")) return -1;
+	if (!strcmp(w, "file")) return NSLOT;
 	int s = parse_idx(w, NSLOT);
 	return s < 0 ? -2 : s;
 }
@@ -181,6 +183,12 @@ int main(void)
 		rfd[s] = p[0]; wfd[s] = p[1];
 		fcntl(rfd[s], F_SETFL, O_NONBLOCK);
 	}
+	{
+		/* a regular file: epoll_ctl(ADD) refuses it (EPERM) */
+		FILE *tf = tmpfile();
+		if (!tf || (rfd[NSLOT] = dup(fileno(tf))) < 0) { puts("FAULT tmpfile"); return 1; }
+		fclose(tf);
+	}
 	while (fgets(line, sizeof(line), stdin)) {
 		if (line[0] == '#' || line[0] == '\n') { fputs(line, stdout); continue; }
 		drv_split(line);
@@ -235,7 +243,7 @@ int main(void)
 			char txt[16];
 			const char *str = txt;
 			MPT_STRUCT(value) val;
-			if (i < 0 || s == -2 || !ins[i].alive) { puts("bad-op"); continue; }
+			if (i < 0 || s == -2 || s == NSLOT || !ins[i].alive) { puts("bad-op"); continue; }
 			snprintf(txt, sizeof(txt), "%d", s);
 			MPT_value_set(&val, 's', &str);
 			ret = mpt_notify_change(&no, &ins[i].in, &val);
@@ -243,7 +251,7 @@ int main(void)
 		}
 		else if (!strcmp(op, "ready") && drv_nw == 3) {
 			int s = parse_slot(drv_w[2]);
-			if (s < 0) { puts("bad-op"); continue; }
+			if (s < 0 || s == NSLOT) { puts("bad-op"); continue; }
 			if (write(wfd[s], "x", 1) < 0) { }
 			result("ok");
 		}
